@@ -14,6 +14,12 @@ pub struct C13;
 
 const STEP_LIMIT: usize = 1_000_000;
 
+/// number of expressions interned in the context (found by probing: references are dense indices)
+fn ctx_size(ctx: &mut Context) -> usize {
+    let probe = ctx.bv_symbol("verif size probe", 1);
+    usize::from(probe)
+}
+
 enum Out {
     Ok(ExprRef),
     Violation,
@@ -36,6 +42,18 @@ fn call<T: patronus::expr::ExprMap<Option<ExprRef>>>(sh: &mut Shard, ctx: &mut C
                 sh.violation(
                     format!("C13|no-termination|{}", r2::op_name(&ctx[e])),
                     format!("more than {STEP_LIMIT} rewrite steps in one simplify call ({what}) on a DAG of {nodes} nodes\ninput: {}", util::trunc(&r2::render(ctx, e), 1500)),
+                    json!({}),
+                );
+            } else if p.msg.contains("VERIF-CHAIN-LIMIT") {
+                // the rewrite cache holds a cycle: the search for the end of a chain of cache entries never ends
+                sh.violation(
+                    "C13|no-termination|cache-cycle".to_string(),
+                    format!(
+                        "one simplify call ({what}) followed more than {} cache links while looking for a fixed point: the cache contains a cycle (a context of {} expressions cannot hold an acyclic chain of that length), so the call never returns\ninput: {}",
+                        super::c01::CHAIN_LIMIT,
+                        ctx_size(ctx),
+                        util::trunc(&r2::render(ctx, e), 1500)
+                    ),
                     json!({}),
                 );
             } else {
